@@ -11,7 +11,7 @@ import (
 
 // C15 — title comes from the page, is never invented, and is not repeated in content.
 
-var c15Words = []string{"Alpha", "Beta", "Gamma", "Lorem ipsum dolor sit amet",
+var c15Words = []string{"Alpha", "Beta", "Gamma", "Example.com", "Lorem ipsum dolor sit amet",
 	// 110 characters but 200 bytes: a length window measured in bytes and one measured in characters disagree
 	"Широкая электрификация южных губерний даст мощный толчок подъёму сельского хозяйства и развитию промышленности",
 	"Pellentesque habitant morbi tristique senectus et netus et malesuada fames ac turpis egestas vestibulum tortor quam feugiat vitae ultricies eget tempor sit amet ante donec eu libero"}
@@ -19,7 +19,7 @@ var c15Seps = []string{" ", " - ", " | ", " » ", " / ", " > ", " \\ ", ": ", "-
 
 var c15H1 = []string{"absent", "title", "part", "other"}
 var c15H2 = []string{"absent", "title"}
-var c15Markup = []string{"absent", "schema", "og", "og-unqualified"}
+var c15Markup = []string{"absent", "schema", "og", "og-unqualified", "og-padded", "ie-padded"}
 
 func c15Title(ws, ss []int) string {
 	var sb strings.Builder
@@ -61,6 +61,10 @@ func c15Doc(title, h1, h2, markup string) string {
 	switch markup {
 	case "og":
 		head.WriteString("<meta property=\"og:type\" content=\"article\"><meta property=\"og:title\" content=\"Markup Title Words\"><meta property=\"og:url\" content=\"http://x.example/\"><meta property=\"og:image\" content=\"http://x.example/i.jpg\">")
+	case "og-padded":
+		head.WriteString("<meta property=\"og:type\" content=\"article\"><meta property=\"og:title\" content=\"  Markup Title&nbsp;Words \n\"><meta property=\"og:url\" content=\"http://x.example/\"><meta property=\"og:image\" content=\"http://x.example/i.jpg\">")
+	case "ie-padded":
+		head.WriteString("<meta name=\"title\" content=\" Markup Title Words  \">")
 	case "og-unqualified":
 		head.WriteString("<meta property=\"og:type\" content=\"article\"><meta property=\"og:title\" content=\"Markup Title Words\"><meta property=\"og:url\" content=\"http://x.example/\">")
 	case "schema":
@@ -97,6 +101,9 @@ func c15Enumerate(tier string, emit func(*eng.Case)) {
 				for _, h2 := range c15H2 {
 					for _, mk := range c15Markup {
 						if len(ws) > maxWordsAll && !(h2 == "absent" && (mk == "absent" || mk == "schema")) {
+							continue
+						}
+						if len(ws) > 1 && (mk == "og-padded" || mk == "ie-padded") && h1 != "absent" {
 							continue
 						}
 						emit(&eng.Case{Kind: "title", P: map[string]string{"title": title, "h1": h1, "h2": h2, "markup": mk,
@@ -238,7 +245,7 @@ func init() {
 	eng.Register(&eng.Prop{
 		ID:        "C15",
 		DesignRef: "§5 C15",
-		Rule: "all <title> strings word(sep word)* with <= 3 (quick) / <= 4 (thorough) words over 6 words (3 short, a 26-character filler, a 110-character/200-byte Cyrillic sentence, a 180-character filler) and 11 separators (incl. NBSP) (' ', ' - ', ' | ', ' » ', ' / ', ' > ', ' \\ ', ': ', '-', apostrophe) x h1 {absent, = title, = longest part, other} x h2 {absent, = title} x markup title {absent, schema.org headline, OpenGraph qualified, OpenGraph unqualified}; the full variant product for titles of <= 2 / <= 3 words, h1 x {no markup, schema} for the longest titles. " +
+		Rule: "all <title> strings word(sep word)* with <= 3 (quick) / <= 4 (thorough) words over 7 words (3 short, one containing a .com domain, a 26-character filler, a 110-character/200-byte Cyrillic sentence, a 180-character filler) and 11 separators (incl. NBSP) (' ', ' - ', ' | ', ' » ', ' / ', ' > ', ' \\ ', ': ', '-', apostrophe) x h1 {absent, = title, = longest part, other} x h2 {absent, = title} x markup title {absent, schema.org headline, OpenGraph qualified, OpenGraph unqualified, OpenGraph and IE titles padded with whitespace/NBSP}; the full variant product for titles of <= 2 / <= 3 words, h1 x {no markup, schema} for the longest titles. " +
 			"Oracle: MarkupInfo.Title non-empty => Title equals it; else Title is a contiguous part of the normalised <title> or the first h1, non-empty when <title> is, and exactly <title> when that is 15-150 characters with no separator pattern; no h1/h2/h3/p whose text equals Title is emitted in Text or result.Node. " +
 			"Non-trivial = a block equal to Title exists, or the heuristic changed the title.",
 		Enumerate: c15Enumerate,
